@@ -146,7 +146,12 @@ func (vc *VC) callMods(c *ssa.CallCommon, li *loopInfo) {
 		}
 		// conservative: havoc every key named by the callee's modifies targets
 		for _, m := range fc.Modifies {
-			for _, k := range vc.modTargetKeys(fc, m) {
+			ks := vc.modTargetKeys(fc, m)
+			if len(ks) == 0 && m != "nothing" {
+				// a frame target the loop summary cannot resolve to heap keys: assume the worst
+				li.modAll = true
+			}
+			for _, k := range ks {
 				li.mods[k] = true
 				if k == "#map" {
 					li.mapOther = true
